@@ -81,6 +81,12 @@ def scenarios(c):
         S.append("kind=pcq gran=fine mode=enum limit=%d swap=1 cap=%d prod=%s cons=%s" % (
             lim, cap, ",".join(map(str, prod)), ",".join(map(str, cons))))
     S.append("kind=pcq gran=sem mode=enum limit=%d swap=1 cap=2 prod=2,2 cons=2,2" % lim)
+    S.append("kind=pcq gran=fine mode=enum limit=%d swap=1 cap=2 prod=1,1 cons=1" % (4 * lim))
+    # a depth-first enumeration cut off by `limit` only varies the END of the schedule: complement every
+    # finest-granularity scenario with uniformly random schedules (deviations early in the run)
+    rr = 250 if q else 3000
+    for line in [x for x in S if "gran=fine mode=enum" in x]:
+        S.append(line.replace("mode=enum", "mode=rand runs=%d seed=%d" % (rr, rng.randrange(1 << 20))))
     # unbalanced: a consumer without matching producer / a producer without matching consumer
     S.append("kind=pcq gran=sem mode=enum limit=%d cap=2 prod=1 cons=1,1" % lim)
     S.append("kind=pcq gran=sem mode=enum limit=%d cap=1 prod=3 cons=1" % lim)
